@@ -31,7 +31,7 @@ class DelegWorld(EnvelopeWorld):
         h["n_keys"] = max(h["n_keys"], 2)
         while len(h["key_seeds"]) < h["n_keys"]:
             h["key_seeds"].append(Hbytes("dkey", rng.getrandbits(64)).hex())
-        h["n_ops"] = rng.randint(15, 50)
+        h["n_ops"] = rng.randint(15, 50) if not h.get("long_lived") else rng.choice([150, 300])
         return h
 
     def __init__(self, run, header):
@@ -44,6 +44,14 @@ class DelegWorld(EnvelopeWorld):
     def _dels(self, spec):
         out = {}
         for role, (idx, t) in spec.items():
+            if role == "@many":
+                # a document delegating very many roles (the op carries only the count)
+                for j in range(idx[0] if idx else 0):
+                    out["role-%04d" % j] = {"pubkeys": [self.keys.pub[(j + q) % len(self.keys)] for q in range(1 + j % 2)], "threshold": 1}
+                continue
+            if role == "@long":
+                role = "r" * (idx[0] if idx else 1) + "-mgr"
+                idx = idx[1:]
             out[role] = {"pubkeys": [self.keys.pub[i] for i in idx if i < len(self.keys)], "threshold": t}
         return out
 
@@ -71,6 +79,12 @@ class DelegWorld(EnvelopeWorld):
                 gen.set_path(T, p, v)
                 self.run.fault("trusted_malformed")
         self.trusted.append(T)
+        if not op.get("mal") and op.get("via") != "builder" and op["type"] in ("root", "key_mgr") and isinstance(op.get("spec", "0.6.0"), str) \
+                and all(isinstance(rn, str) and keylist_ok(dd["pubkeys"]) and len(set(dd["pubkeys"])) == len(dd["pubkeys"]) and type(dd["threshold"]) is int
+                        and dd["threshold"] >= 1 for rn, dd in dels.items()) and (op["type"] != "root" or not op.get("no_version")):
+            # well-formed by construction (documented schema: supported type, a spec-version *string*, well-formed delegations, UTC
+            # expiration, version / timestamp) - whatever the library's checker says about it
+            self.trusted_by_construction[len(self.trusted) - 1] = payload_hash(T["signed"])
 
     def op_mutate_trusted(self, op):
         """The client refreshes / edits its trusted document object *in place* (same identity, new content)."""
@@ -185,6 +199,15 @@ class DelegWorld(EnvelopeWorld):
         run, lib = self.run, self.lib
         args_ok = type(role) is str and gpg in (True, False)
         wfT = self.calls.raw("checkformat_delegating_metadata", T).ok
+        if not wfT and isinstance(T, dict) and T.get("signatures") == {}:
+            for n_, h_ in self.trusted_by_construction.items():
+                if n_ < len(self.trusted) and self.trusted[n_] is T and isinstance(T.get("signed"), dict):
+                    try:
+                        if payload_hash(T["signed"]) == h_:
+                            wfT = True
+                            run.probe("trusted_wellformed_by_construction_but_checker_rejects")
+                    except (TypeError, AssertionError):
+                        pass
         shape_ok = (type(E) is dict and set(E) == {"signatures", "signed"} and type(E["signatures"]) is dict)
         defects = set()
         accept = False
@@ -275,6 +298,10 @@ class DelegWorld(EnvelopeWorld):
             idx = sorted(rng.sample(range(nk), rng.randint(0, min(nk, 4))))
             t = rng.choice([1, 1, max(1, len(idx)), rng.randint(1, len(idx) + 1)])
             spec[r] = [idx, t]
+        if rng.random() < 0.03:
+            spec["@many"] = [[rng.choice([300, 1100, 2500])], 1]
+        if rng.random() < 0.03:
+            spec["@long"] = [[rng.choice([300, 5000, 70000])] + sorted(rng.sample(range(nk), min(nk, 2))), 1]
         return spec
 
     def gen(self, rng):
@@ -283,7 +310,7 @@ class DelegWorld(EnvelopeWorld):
             op = {"op": "trusted", "type": rng.choice(["root", "key_mgr"]), "dels": self._gen_dels(rng),
                   "version": rng.choice([1, 2, 7]), "via": rng.choice(["builder", "direct"]), "no_version": rng.random() < 0.2}
             if rng.random() < 0.3:
-                op["spec"] = rng.choice(["0.0.5", "0.0.12", "0.1.0", "1.0.0", "0.6.1", "0.5"])
+                op["spec"] = rng.choice(["0.0.5", "0.0.12", "0.1.0", "1.0.0", "0.6.1", "0.5"] + gen.REDOS[:4])
                 op["via"] = "direct"
             if rng.random() < 0.12:
                 fake = {"signatures": {}, "signed": {"type": "root", "version": 1, "metadata_spec_version": "0.6.0",
@@ -302,7 +329,7 @@ class DelegWorld(EnvelopeWorld):
                 op = {"op": "new_md", "type": typ, "dels": self._gen_dels(rng, rng.randint(0, 2)) if rng.random() < 0.7 else {},
                       "version": rng.choice([1, 3]), "gpg": rng.random() < self.h["gpg_bias"]}
                 if rng.random() < 0.35:
-                    op["spec"] = rng.choice(["0.6.0", "0.1.0", "0.0.5", "1.0.0", "2.3.4", "0.6", "v0.6.0", "0.6.0-rc1", "", "é"])
+                    op["spec"] = rng.choice(["0.6.0", "0.1.0", "0.0.5", "1.0.0", "2.3.4", "0.6", "v0.6.0", "0.6.0-rc1", "", "é", "1.0.0rc1", "0.6.0.post1", "1.0"] + gen.REDOS[:7])
                 if rng.random() < 0.3:
                     op["ts"] = rng.choice(["2024-02-29T23:59:59Z", "1999-12-31T23:59:59Z", "2020-02-29T00:00:00Z", "1970-01-01T00:00:00Z", "2038-01-19T03:14:08Z",
                                            "9999-12-31T23:59:59Z", "0001-01-01T00:00:00Z", "2025-12-29T12:00:00Z", "2021-03-28T01:30:00Z", "2016-12-31T23:59:59Z"])
